@@ -379,6 +379,23 @@ pub fn run() -> i32 {
         ctx.note("config_builder", json!({"bases": ["interactive", "default", "moderate", "sensitive"], "alphabet": OPS.iter().map(|(f, v)| format!("with_{}({})", f, v)).collect::<Vec<_>>(), "max_sequence_length": 4, "sequences_per_base": seqs.len(), "hashes": "every sequence of length <= 3 that sets the memory limit, from interactive/default, through hash_with_salt and hash (generated salt)"}));
         ctx.absorb("config-builder", st);
     }
+    // the algorithm chosen by libsodium's numeric id through `From<u32>`
+    {
+        let mut st = Stats::new();
+        for id in [1u32, 2] {
+            let (_, want, _) = sodium::argon2_raw(3, 8, &pwd8, &salt16, 32, id as i32, false);
+            let r = guarded(AssertUnwindSafe(|| {
+                let mut out = vec![0xC3u8; 32];
+                crypto_pwhash(&mut out, &pwd8, &salt16, 3, 8192, PasswordHashAlgorithm::from(id)).ok().map(|_| out)
+            }));
+            let ok = r == Ok(Some(want.clone()));
+            st.eval(&("alg-from-id", id), true, if ok { "argon2==libsodium" } else { "argon2-differs" });
+            if !ok {
+                st.fail(Fail { check: "C09.argon2".into(), signature: "C09/alg-from-id/differs".into(), what: format!("crypto_pwhash with PasswordHashAlgorithm::from({}) differs from libsodium's algorithm id {}", id, id), case: json!({"kind": "reject"}) });
+            }
+        }
+        ctx.absorb("algorithm-ids", st);
+    }
     // the preset entry points of the object API (real costs: 64 MiB / 256 MiB / 1 GiB)
     let mut st = Stats::new();
     let presets: Vec<(&str, u32, u32)> = match tier {
